@@ -200,7 +200,7 @@ theorem frame_removeAtX (env : Env) (ic : Interceptors) (f : Node → Node) (hf 
                 cases e
               | miss ps2 =>
                 simp only
-                have ht : tryChild env ic c rp ps = .miss (ps2.erase c.seg.name) := by
+                have ht : tryChild env ic c rp ps = .miss (restoreParam ps ps2 c.seg.name) := by
                   unfold tryChild; rw [hm]; simp only [hr]
                 rw [tryChild_miss List.mem_cons_self htrack ht]
                 exact FrameMR.refl _ _
